@@ -1,1 +1,142 @@
-// harness stub: nothing here yet
+// Correspondence harness for the daemon-side BMP converters of daemon/src/bmp.rs
+// (property C19).  Included as the body of `bmp::verif_hx` under
+// cfg(all(test, osrg_rustybgp_verif)).
+use super::*;
+
+#[allow(dead_code)]
+mod val {
+    include!(concat!(env!("VERIF_HX_DIR"), "/common/val.rs"));
+}
+#[allow(dead_code)]
+mod caps {
+    include!(concat!(env!("VERIF_HX_DIR"), "/common/caps.rs"));
+}
+#[allow(dead_code)]
+mod mon {
+    include!(concat!(env!("VERIF_HX_DIR"), "/common/mon.rs"));
+}
+use val::Val;
+
+use rustybgp_table as table;
+use tokio_util::codec::Encoder;
+
+// [remote_addr, local_addr, remote_asn, local_asn, router_id(4 bytes)]
+fn source_of(v: &Val) -> Arc<table::Source> {
+    let l = v.list();
+    Arc::new(table::Source::new(
+        mon::ip_of(&l[0]),
+        mon::ip_of(&l[1]),
+        l[2].u32(),
+        l[3].u32(),
+        mon::v4_of(&l[4]),
+        table::PeerRole::Ebgp,
+    ))
+}
+
+// [source, family, addpath, entries, [] | [attrs], nexthop, timestamp]
+fn change_of(v: &Val) -> AdjRibInChange {
+    let l = v.list();
+    AdjRibInChange {
+        source: source_of(&l[0]),
+        family: mon::fam_of(&l[1]),
+        addpath: l[2].bool(),
+        nlris: mon::entries_of(&l[3]),
+        attrs: l[4].list().first().map(mon::attrs_of),
+        nexthop: mon::nexthop_of(&l[5]),
+        timestamp: l[6].u32(),
+    }
+}
+
+fn pph_of(v: &Val) -> bmp::PerPeerHeader {
+    let l = v.list();
+    bmp::PerPeerHeader::new(
+        l[1].u8(),
+        l[2].u32(),
+        mon::v4_of(&l[3]),
+        l[4].u64(),
+        mon::ip_of(&l[5]),
+        l[6].u32(),
+    )
+    .with_peer_type(l[0].u8())
+}
+
+// what one bmp::Message is: the bytes BmpCodec writes for it, the reference
+// encoding of its update, the update the converter built, the add-path flag
+fn rm_val(codec: &mut bmp::BmpCodec, m: &bmp::Message) -> Val {
+    let mut buf = bytes::BytesMut::new();
+    codec.encode(m, &mut buf).expect("verif: bmp encode");
+    match m {
+        bmp::Message::RouteMonitoring {
+            update, addpath, ..
+        } => Val::L(vec![
+            Val::from_bytes(&buf),
+            Val::from_bytes(&mon::ref_encode(update, *addpath)),
+            mon::msg_val(update),
+            Val::b(*addpath),
+        ]),
+        _ => Val::L(vec![Val::from_bytes(&buf)]),
+    }
+}
+
+fn run_case(case: &Val) -> Val {
+    let l = case.list();
+    let mut codec = bmp::BmpCodec::new();
+    match l[0].int() {
+        0 => {
+            let change = change_of(&l[1]);
+            mon::msg_val(&adj_rib_in_to_bmp_update(&change))
+        }
+        1 => {
+            let lrc = LocRibChange {
+                family: mon::fam_of(&l[1]),
+                net: mon::nlri_of(&l[2]),
+                attr: l[3].list().first().map(mon::attrs_of),
+                nexthop: mon::nexthop_of(&l[4]),
+                timestamp: l[5].u32(),
+            };
+            let m = loc_rib_to_bmp(&lrc, mon::v4_of(&l[6]), l[7].u32());
+            rm_val(&mut codec, &m)
+        }
+        2 => {
+            let mut snapshot = SnapshotMap::default();
+            for c in l[1].list() {
+                apply_snapshot(&mut snapshot, change_of(c));
+            }
+            let header = pph_of(&l[3]);
+            let msgs = flush_peer_snapshot(&mut snapshot, mon::ip_of(&l[2]), &header, l[4].u8());
+            // hash-map order is unspecified: route messages first, then EoRs, each group sorted
+            let n_routes = msgs
+                .iter()
+                .filter(|m| {
+                    matches!(
+                        m,
+                        bmp::Message::RouteMonitoring {
+                            update: bgp::Message::Update(bgp::Update::Reach { .. }),
+                            ..
+                        }
+                    )
+                })
+                .count();
+            let eor_after_routes = msgs.iter().skip(n_routes).all(|m| {
+                matches!(
+                    m,
+                    bmp::Message::RouteMonitoring {
+                        update: bgp::Message::Update(bgp::Update::EndOfRib(_)),
+                        ..
+                    }
+                )
+            });
+            let mut vals: Vec<Val> = msgs.iter().map(|m| rm_val(&mut codec, m)).collect();
+            vals.sort_by_key(|v| v.to_string());
+            let mut left: Vec<Val> = snapshot.keys().map(mon::ip_val).collect();
+            left.sort_by_key(|v| v.to_string());
+            Val::L(vec![Val::L(vals), Val::b(eor_after_routes), Val::L(left)])
+        }
+        t => panic!("verif: bad case tag {}", t),
+    }
+}
+
+#[test]
+fn verif_bmp_cases() {
+    val::run_cases(run_case);
+}
